@@ -32,7 +32,7 @@ func vBool(b bool) Val { return Val{T: "bool", B: b} }
 // Known reports whether the value contains no opaque part.
 func (v Val) Known() bool {
 	switch v.T {
-	case "opq", "func", "map":
+	case "opq", "func", "map", "iter":
 		return false
 	case "arr":
 		for _, e := range v.E {
@@ -598,6 +598,8 @@ func (m *Model) eval(n *N, env *MEnv) res {
 			return r
 		}
 		return m.call(f.v, args, kw)
+	case KIter:
+		return norm(Val{T: "iter", Fn: n, Env: env, I: 0})
 	case KTry:
 		recv := m.ev("try/recv", n.A, env)
 		if recv.c == cRaise {
@@ -740,16 +742,54 @@ func (m *Model) callAs(how string, f Val, args []Val, kw []kwarg) res {
 	return r
 }
 
-func iterElems(v Val) ([]Val, bool) {
+// puller yields the elements of a chain receiver one by one. For an iterator literal
+// every pull is one activation of its body (pre-statements, the guarded yield, then -
+// unless the guard stopped it - the post-statements; reached defers run after that).
+type puller func() (v Val, done bool, r res)
+
+func (m *Model) iterElems(v Val) (puller, bool) {
 	switch v.T {
 	case "arr":
-		return v.E, true
+		i := 0
+		return func() (Val, bool, res) {
+			if i >= len(v.E) {
+				return vNil, true, norm(vNil)
+			}
+			i++
+			return v.E[i-1], false, norm(vNil)
+		}, true
 	case "int":
-		var out []Val
-		for i := int64(1); i <= v.I; i++ {
-			out = append(out, vInt(i))
-		}
-		return out, true
+		i := int64(0)
+		return func() (Val, bool, res) {
+			if i >= v.I {
+				return vNil, true, norm(vNil)
+			}
+			i++
+			return vInt(i), false, norm(vNil)
+		}, true
+	case "iter":
+		cur := v.I
+		lit := v.Fn
+		return func() (Val, bool, res) {
+			env := newMEnv(v.Env)
+			env.vars["i"] = vInt(cur)
+			stop := cur >= lit.Int
+			stmts := append([]*N(nil), lit.L...)
+			if !stop {
+				stmts = append(stmts, lit.Post...)
+			}
+			m.path = append(m.path, "iter/body")
+			r := m.body(stmts, env)
+			m.path = m.path[:len(m.path)-1]
+			if r.c == cRaise {
+				return vNil, true, r
+			}
+			if stop {
+				return vNil, true, norm(vNil)
+			}
+			cur++
+			return vInt(cur - 1), false, norm(vNil)
+		}, true
 	}
 	return nil, false
 }
@@ -773,12 +813,19 @@ func (m *Model) chain(c Chain, recv Val, chainArg Val, one func(recv Val, acc Va
 		}
 		return r
 	case '@':
-		elems, ok := iterElems(recv)
+		pull, ok := m.iterElems(recv)
 		if !ok {
 			return m.giveUp("list chain over unknown receiver")
 		}
 		out := Val{T: "arr"}
-		for _, e := range elems {
+		for {
+			e, done, pr := pull()
+			if pr.c == cRaise {
+				return pr // an error raised by the iterator's body is not the callee's: it propagates
+			}
+			if done {
+				break
+			}
 			if lonely && e.T == "nil" {
 				continue
 			}
@@ -805,12 +852,19 @@ func (m *Model) chain(c Chain, recv Val, chainArg Val, one func(recv Val, acc Va
 		}
 		return norm(out)
 	case '$':
-		elems, ok := iterElems(recv)
+		pull, ok := m.iterElems(recv)
 		if !ok {
 			return m.giveUp("reduce chain over unknown receiver")
 		}
 		acc := chainArg
-		for _, e := range elems {
+		for {
+			e, done, pr := pull()
+			if pr.c == cRaise {
+				return pr
+			}
+			if done {
+				break
+			}
 			if lonely {
 				return m.giveUp("lonely reduce chain")
 			}
@@ -864,6 +918,20 @@ func (m *Model) propCall(n *N, env *MEnv) res {
 	args, kw, r := m.args(n, env)
 	if r.c == cRaise {
 		return r
+	}
+	if n.Str == "A" && n.Chain.Main == '.' && recv.v.T == "iter" {
+		pull, _ := m.iterElems(recv.v)
+		out := Val{T: "arr"}
+		for {
+			e, done, pr := pull()
+			if pr.c == cRaise {
+				return pr
+			}
+			if done {
+				return norm(out)
+			}
+			out.E = append(out.E, e)
+		}
 	}
 	one := func(rv Val, acc Val) res {
 		if n.Chain.Add == '~' {
@@ -986,6 +1054,9 @@ func Walk(n *N, f func(*N)) {
 		Walk(c, f)
 	}
 	for _, c := range n.Kw {
+		Walk(c, f)
+	}
+	for _, c := range n.Post {
 		Walk(c, f)
 	}
 }
